@@ -1188,6 +1188,38 @@ func (p *Printer) Script(asserts []*Term, getValues []*Term) string {
 	return sb.String()
 }
 
+// ScriptNamed: assertions with a non-empty name are named (for unsat cores).
+func (p *Printer) ScriptNamed(asserts []*Term, names []string) string {
+	var body []string
+	for i, a := range asserts {
+		if names[i] != "" {
+			body = append(body, fmt.Sprintf("(assert (! %s :named %s))", p.term(a), names[i]))
+		} else {
+			body = append(body, fmt.Sprintf("(assert %s)", p.term(a)))
+		}
+	}
+	var sb strings.Builder
+	sb.WriteString("(set-option :produce-unsat-cores true)\n(set-logic ALL)\n")
+	for _, d := range p.decls {
+		sb.WriteString(d)
+		sb.WriteByte('\n')
+	}
+	for _, d := range p.defs {
+		sb.WriteString(d)
+		sb.WriteByte('\n')
+	}
+	for _, d := range p.axioms {
+		sb.WriteString(d)
+		sb.WriteByte('\n')
+	}
+	for _, b := range body {
+		sb.WriteString(b)
+		sb.WriteByte('\n')
+	}
+	sb.WriteString("(check-sat)\n(get-unsat-core)\n")
+	return sb.String()
+}
+
 func sortedKeys[V any](m map[string]V) []string {
 	var ks []string
 	for k := range m {
